@@ -106,6 +106,17 @@ def w_views(ctx, rng, idx):
     call('TT.transpose', lambda: a.transpose(conjugate=True), prop=P)
     if d > 1:
         sub = sorted(set(int(i) for i in rng.integers(0, d, size=int(rng.integers(1, d + 1)))))
+        # the set of modes in every form a caller may write it: sorted list, unsorted, with an index named more than once (a merged list
+        # of modes), integer array, tuple, single integer
+        form = int(rng.integers(0, 6))
+        if form == 1:
+            sub = [int(i) for i in rng.permutation(sub)]
+        elif form == 2:
+            sub = [int(i) for i in rng.permutation(sub + [sub[int(rng.integers(0, len(sub)))]] * int(rng.integers(1, 3)))]
+        elif form == 3:
+            sub = np.array(sub)
+        elif form == 4:
+            sub = sub[0]
         call('TT.transpose', lambda: a.transpose(cores=sub), prop=P)
     b = a.copy()
     call('TT.transpose', lambda: b.transpose(overwrite=True), prop=P)
